@@ -112,6 +112,13 @@ M = [
   "            if ring.sq.len() >= ring.depth as usize {\n                ring.sq.pop_front();\n                return Err(PushError);\n            }"),
 ]
 
+# independently seeded changes (patch files), see NOTES.md (e)
+P = [
+ ('seeded-C07-1-rename-entry-only-if-source-durable', 'C07', '/verif/seeded/C07-1/patch.diff'),
+ ('seeded-C07-2-crash-skips-finished-hosts', 'C07', '/verif/seeded/C07-2/patch.diff'),
+ ('seeded-C18-2-ring-write-hole-not-charged', 'C18', '/verif/seeded/C18-2/patch.diff'),
+]
+
 def sh(cmd, **kw):
     return subprocess.run(cmd, shell=True, capture_output=True, text=True, **kw)
 
@@ -158,6 +165,30 @@ def main():
             results.append((name, prop, verdict))
         finally:
             open(f, 'w').write(src)
+    for (name, prop, pf) in P:
+        if only and not any(o in name for o in only):
+            continue
+        if not os.path.exists(pf):
+            print(f'{name}: patch file missing')
+            continue
+        r = sh(f'cd {REPO} && patch -p1 -s < {pf}')
+        if r.returncode != 0:
+            print(f'{name}: PATCH DOES NOT APPLY')
+            results.append((name, prop, 'noapply'))
+            continue
+        try:
+            b = build()
+            if 'error' in b.stdout:
+                print(f'{name}: BUILD FAILED\n{b.stdout}')
+                results.append((name, prop, 'nobuild'))
+                continue
+            code, dt, out = run(prop)
+            lines = [l for l in out.splitlines() if l.startswith('#')][:2]
+            verdict = {0: 'MISSED', 1: 'caught', 2: 'inconclusive'}.get(code, str(code))
+            print(f'{name}: {verdict} ({dt:.0f}s) ' + ' | '.join(l[:200] for l in lines))
+            results.append((name, prop, verdict))
+        finally:
+            sh(f'cd {REPO} && patch -R -p1 -s < {pf}')
     print(json.dumps(results))
 
 if __name__ == '__main__':
